@@ -7,8 +7,8 @@
    Gen/NormPathGen.v, and the matchlab correspondence (exhaustive short paths). *)
 From Coq Require Import List String Ascii Bool Arith ZArith.
 Import ListNotations.
-From ClasticV Require Import Base.Py Base.Strs Base.Rx Gen.RouteLex Gen.NormPathGen Model.Pattern Model.Match Model.RouteRx Model.Backtrack
-     Proofs.MatchProofs Proofs.RouteRxProofs Proofs.IntLexProofs Proofs.BacktrackProofs.
+From ClasticV Require Import Base.Py Base.Strs Base.Rx Gen.RouteLex Gen.NormPathGen Gen.RouteShape Model.Pattern Model.Match Model.RouteRx Model.Backtrack
+     Proofs.MatchProofs Proofs.RouteRxProofs Proofs.IntLexProofs Proofs.BacktrackProofs Proofs.ConvertProofs.
 Local Open Scope string_scope.
 Local Open Scope list_scope.
 
@@ -217,4 +217,102 @@ Example C05_engine_example :
     Some [("/a//5/b/c/", "//5/b/c/"); ("//5/b/c/", "/b/c/"); ("/b/c/", "/"); ("/", "")] /\
   match_groups (groups MTolerant p) "/a/b/c" = Some [("/a/b/c", "/b/c"); ("/b/c", "/b/c"); ("/b/c", ""); ("", "")] /\
   match_groups (groups MStrict p) "/a//5/b" = None.
+Proof. eexists. split; [vm_compute; reflexivity|]. vm_compute. repeat split; reflexivity. Qed.
+
+(* BoundRoute.match_path END TO END.  [py_match_path] is match_path as the code spells it: run the engine on the groups of the
+   assembled expression, take every named group's text, and apply build_converter's own string operations to it
+   (value.split('/')[1:] for a multi binding, value.replace('/', '') for a single one, the empty text of an optional
+   binding is None / []; a conversion error means no match).  For every pattern the model accepts, every slash mode and
+   every path it IS Model/Match.match_path - the function all other C05 theorems (sound, complete, greedy, partition,
+   shapes, strict_exact, tolerant_slashes) are about. *)
+Theorem C05_match_path_end_to_end : forall s p m path, parse_pattern s = Ok p ->
+  py_match_path m p path = match_path m p path.
+Proof. exact py_match_path_is_match_path. Qed.
+Print Assumptions C05_match_path_end_to_end.
+
+Theorem C05_converter_on_span : forall b l, Forall tok_wf l ->
+  option_map (fun v => (b_name b, v)) (py_converter b (render l)) = convert1 (b, l).
+Proof. exact converter_on_span. Qed.
+Print Assumptions C05_converter_on_span.
+
+(* obligation on the source: the statements of _compile_path_pattern, build_converter and BoundRoute.match_path that
+   route_rx, py_converter and py_match_path transcribe, regenerated on every run *)
+Theorem C05_route_shape :
+  SK_COMPILE_PATH_PATTERN =
+  ["processed = []";
+   "var_converter_map = {}";
+   "if not pattern.startswith('/')";
+   "  raise InvalidPattern('URL path patterns must start with a forward slash (got %r)' % pattern)";
+   "if '//' in pattern";
+   "  raise InvalidPattern('URL path patterns must not contain multiplecontiguous slashes (got %r)' % pattern)";
+   "sep = '/+'";
+   "if mode == S_STRICT";
+   "  sep = '/'";
+   "for part in pattern.split('/')";
+   "  match = BINDING.match(part)";
+   "  if not match";
+   "    processed.append(part)";
+   "    continue";
+   "  parsed = match.groupdict()";
+   "  name, type_name, op = (parsed['name'], parsed['type'], parsed['op'])";
+   "  if name in var_converter_map";
+   "    raise InvalidPattern('duplicate path binding %s' % name)";
+   "  if op == ':'";
+   "    op = ''";
+   "  if not type_name";
+   "    type_name = 'unicode'";
+   "  try";
+   "    cur_conv = TYPE_CONV_MAP[type_name]";
+   "    cur_patt = TYPE_PATT_MAP[type_name]";
+   "  except KeyError";
+   "    raise InvalidPattern('unknown type specifier %s' % type_name)";
+   "  try";
+   "    multi = _OP_ARITY_MAP[op]";
+   "    optional = _OP_OPTIONALITY_MAP[op]";
+   "  except KeyError";
+   "    _tmpl = 'unknown arity operator %r, expected one of %r'";
+   "    raise InvalidPattern(_tmpl % (op, _OP_ARITY_MAP.keys()))";
+   "  var_converter_map[name] = build_converter(cur_conv, multi=multi, optional=optional)";
+   "  path_seg_pattern = _SEG_TMPL.format(name=name, sep=sep, pattern=cur_patt, arity=op)";
+   "  processed[-1] += path_seg_pattern";
+   "full_pattern = '^'";
+   "if mode != S_STRICT and (not processed[-1])";
+   "  processed = processed[:-1]";
+   "full_pattern += sep.join(processed)";
+   "if mode != S_STRICT";
+   "  full_pattern += '/*'";
+   "regex = re.compile(full_pattern + '\\Z')";
+   "return (regex, var_converter_map)"] /\
+  SK_BUILD_CONVERTER =
+  ["if multi";
+   "  def multi_converter(value)";
+   "    if not value and optional";
+   "      return []";
+   "    return [converter(v) for v in value.split('/')[1:]]";
+   "  return multi_converter";
+   "def single_converter(value)";
+   "  if not value and optional";
+   "    return None";
+   "  return converter(value.replace('/', ''))";
+   "return single_converter"] /\
+  SK_MATCH_PATH =
+  ["ret = {}";
+   "match = self.regex.match(path)";
+   "if not match";
+   "  return None";
+   "groups = match.groupdict()";
+   "try";
+   "  for (conv_name, conv) in self.converters.items()";
+   "    ret[conv_name] = conv(groups[conv_name])";
+   "except (KeyError, TypeError, ValueError)";
+   "  return None";
+   "return ret"].
+Proof. repeat split; reflexivity. Qed.
+Print Assumptions C05_route_shape.
+
+Example C05_end_to_end_example :
+  exists p, parse_pattern "/a/<x?int>/<rest+>" = Ok p /\
+  py_match_path MTolerant p "/a//5/b//c/" = Some [("x", VInt 5%Z); ("rest", VList [VStr "b"; VStr ""; VStr "c"])] /\
+  py_match_path MTolerant p "/a/b" = Some [("x", VNone); ("rest", VList [VStr "b"])] /\
+  py_match_path MTolerant p "/a/+ 5/b" = None /\ py_match_path MStrict p "/a//5/b" = None.
 Proof. eexists. split; [vm_compute; reflexivity|]. vm_compute. repeat split; reflexivity. Qed.
